@@ -180,7 +180,10 @@ def quote_docstring(docstr: str):
     """Return a triple-quoted string literal that evaluates to ``docstr``"""
     escaped = docstr.replace("\\", "\\\\").replace('"""', '\\"\\"\\"')
     if escaped.endswith('"'):
-        escaped = escaped[:-1] + '\\"'
+        body = escaped[:-1]
+        if (len(body) - len(body.rstrip("\\"))) % 2 == 0:
+            # The last quote is not escaped yet
+            escaped = body + '\\"'
     return '"""' + escaped + '"""'
 
 
